@@ -410,9 +410,9 @@ func (x *Exec) typeInv(v Val, st *State) string {
 			implies(eq(v.base(), "0"), and(eq(v.scap(), "0"), eq(v.off(), "0"))),
 			sx("<", v.base(), x.alloc(st)))
 	case *types.Pointer, *types.Map, *types.Signature, *types.Chan:
-		return and(sx("<=", "0", v.C[0]), sx("<", v.C[0], x.alloc(st)))
+		return and(sx("<=", "0", v.C[0]), sx("<", v.C[0], x.alloc(st)), x.tensorTypeInv(v, st))
 	case *types.Interface:
-		return and(sx("<=", "0", v.tag()), implies(eq(v.tag(), "0"), eq(v.pay(), "0")), sx("<=", "0", v.pay()), sx("<", v.pay(), x.alloc(st)))
+		return and(sx("<=", "0", v.tag()), implies(eq(v.tag(), "0"), eq(v.pay(), "0")), sx("<=", "0", v.pay()), sx("<", v.pay(), x.alloc(st)), x.tensorTypeInv(v, st))
 	case *types.Struct:
 		var cs []string
 		for i := 0; i < u.NumFields(); i++ {
